@@ -72,9 +72,10 @@ def kind_of(engine) -> str:
     import casadi as cs
 
     e = getattr(engine, "inner", engine)
-    if type(e).__module__.endswith("engines.numpy"):
+    st = getattr(e, "sym_type", None)
+    if st is None:
         return "numpy"
-    return "mx" if e.sym_type is cs.MX else "sx"
+    return "mx" if st is cs.MX else "sx"
 
 
 # names that no reasonable reading makes "known" (no case variants, no class names, no None)
@@ -128,15 +129,13 @@ class Session:
             if parts[1] == "numpy" and len(parts) > 2:
                 kw["var_type"] = parts[2]
             r = M.engines.use(parts[1], **kw)
-            mod = "sym_metanet.engines." + parts[1]
-            if type(r).__module__ != mod or type(r).__name__ != "Engine":
+            info = M.engines.get_available_engines()[parts[1]]  # the library's own public registry
+            if type(r).__module__ != info["module"] or type(r).__name__ != info["class"]:
                 raise Violation("C13/use-name-wrong-class", f"{where}: use({parts[1]!r}) returned {type(r).__module__}.{type(r).__name__}")
             if parts[1] == "casadi" and r.sym_type is not getattr(cs, kw.get("sym_type", "SX")):
                 raise Violation("C13/use-name-wrong-args", f"{where}: sym_type not honoured")
             if parts[1] == "numpy" and r.var_type != kw.get("var_type", "empty"):
                 raise Violation("C13/use-name-wrong-args", f"{where}: var_type not honoured")
-            if r is before:
-                raise Violation("C13/use-name-not-new", f"{where}: use by name returned the previous engine object")
             target = r
         else:
             target = (self.inst if parts[0] == "inst" else self.spies)[parts[1]]
